@@ -75,6 +75,9 @@ class HampelFilter(_SeriesToSeriesTransformer):
         self.check_is_fitted()
         Z = check_series(Z)
 
+        # outliers are replaced in a copy, the passed data is left untouched
+        Z = Z.copy()
+
         # multivariate
         if isinstance(Z, pd.DataFrame):
             for col in Z:
@@ -125,8 +128,9 @@ class HampelFilter(_SeriesToSeriesTransformer):
 def _hampel_filter(Z, cv, n_sigma, half_window_length, k):
     for i in cv.split(Z):
         cv_window = i[0]
-        cv_median = np.nanmedian(Z[cv_window])
-        cv_sigma = k * np.nanmedian(np.abs(Z[cv_window] - cv_median))
+        # windows are positions, not index labels
+        cv_median = np.nanmedian(Z.iloc[cv_window])
+        cv_sigma = k * np.nanmedian(np.abs(Z.iloc[cv_window] - cv_median))
 
         # find outliers at start and end of z
         if (
